@@ -286,6 +286,7 @@ def run_cli(ctx, shard):
 
     rng = ctx.rng("cli")
     runner = CliRunner()
+    shared = ctx.newdir()        # history: the same path is rewritten with another table and read again in this process
     for k in range(shard["n"]):
         cid = f"cli:{k}"
         nch = int(rng.integers(1, 5))
@@ -302,7 +303,9 @@ def run_cli(ctx, shard):
         with ctx.case(cid, {"chromsizes": list(zip(names, lengths)), "binsize": b}) as c:
             if any(" " in n_ for n_ in names):
                 c.feature("cli:names-with-blanks")
-            d = ctx.newdir()
+            d = shared if k % 2 else ctx.newdir()
+            if k % 2:
+                c.feature("cli:chromsizes-path-rewritten-and-read-again")
             cspath = os.path.join(d, "x.chrom.sizes")
             with open(cspath, "w") as f:
                 for n_, L in zip(names, lengths):
